@@ -186,7 +186,13 @@ def gen_layers(r, ncell, ndim, how, exact=True, nan_values=False):
                 else:
                     w = [r.uniform(-3, 3) for _ in range(3)]
                 vals.append(w[:ndim] + [0.0] * (3 - ndim))
-            out.append({"key": "velocity", "kind": "vector", "unit": "cm/s", "vals": vals})
+            lay = {"key": "velocity", "kind": "vector", "unit": "cm/s", "vals": vals}
+            if ndim == 2 and r.random() < 0.5:
+                # a three-component field on a 2-D mesh (an out-of-plane component, 2.5-D MHD): the map shows its in-plane
+                # part, the third value of every cell is not zero
+                lay["full3"] = True
+                lay["vals"] = [[w[0], w[1], (i % 5 + 1) * 0.75 * (1 if i % 2 else -1)] for i, w in enumerate(vals)]
+            out.append(lay)
     return out
 
 
@@ -234,7 +240,7 @@ def build_group(osy, case):
             dg[lay["key"]] = osy.Array(vals, unit=lay["unit"])
         else:
             w = np.array(lay["vals"], dtype=np.float64).reshape(-1, 3)
-            comps = [w[:, a].copy() for a in range(nd)]
+            comps = [w[:, a].copy() for a in range(3 if lay.get("full3") else nd)]
             dg[lay["key"]] = osy.Vector(*comps, unit=lay["unit"])
             have_vel = have_vel or lay["key"] == "velocity"
     n = len(s)
